@@ -34,23 +34,27 @@ def run(ctx):
     # Found by the Ramalhete impl spec (HelpTail); on the real code it needs two preemptions at the right places among ~150 steps.
     djobs = ['%s/%s/I;%s' % (qc, r, DIRECTED2 if qc in ('ram21', 'nik21') else DIRECTED) for qc in ('ram10', 'nik10', 'ms', 'ram21', 'nik21') for r in (('he3', 'stamp') if q else RECL)]
     run_queues(ctx, djobs, pb=2, max_exec=12000 if q else 80000, tagx='d')
-    # S: the impl spec NikolaevQueue is bound to the code at the grain of single atomic accesses (ring words match exactly)
+    # S: the impl specs are bound to the code at the grain of single atomic accesses; the bindings are independent and run side by side
     from props.c03 import step_bind
+    sb = []
+    # NikolaevQueue: ring words match exactly
     nq = queue_models.nq_consts(Progs='<-ProgStep', SetupOps=0, MaxNodes=7)
     keep = lambda r: ('nikolaev_queue' in r.get('ctx', '') or 'nikolaev_scq' in r.get('ctx', '')) and 'nikolaev_scq::nikolaev_scq' not in r.get('ctx', '')
     for rc in (['nebr0'] if q else ['nebr0', 'ebr0', 'debra0', 'qsbr', 'stamp']):
-        step_bind(ctx, 'NikolaevQueue', 'queue_nik', ['nik10/%s/I;;push1,push2,pop;pop,push3' % rc], nq, pb=2, max_exec=400 if q else 20000, keep=keep)
-    # ... and so is Ramalhete (index words and entries match exactly; raw-pointer elements from a named array)
+        sb.append(lambda rc=rc: step_bind(ctx, 'NikolaevQueue', 'queue_nik', ['nik10/%s/I;;push1,push2,pop;pop,push3' % rc], nq, pb=2, max_exec=400 if q else 20000, keep=keep))
+    # Ramalhete: index words and entries match exactly (raw-pointer elements from a named array)
     rq = queue_models.rq_consts(Progs='<-ProgStep', NNodes=7)
     keepr = lambda r: r.get('fn', '').startswith('ramalhete_queue::') and 'node::' not in r.get('fn', '')
     for rc in (['nebr0'] if q else ['nebr0', 'hp3', 'he3', 'stamp']):
-        step_bind(ctx, 'Ramalhete', 'queue_ram', ['ram10/%s/P;;push1,push2,pop;pop,push3' % rc], rq, pb=2, max_exec=150 if q else 5000, keep=keepr)
+        sb.append(lambda rc=rc: step_bind(ctx, 'Ramalhete', 'queue_ram', ['ram10/%s/P;;push1,push2,pop;pop,push3' % rc], rq, pb=2, max_exec=100 if q else 5000, keep=keepr))
     if not q:
-        step_bind(ctx, 'Ramalhete', 'queue_ram', ['ram21/nebr0/P;;push1,push2,pop;pop,push3'], dict(rq, EPN=2, PopRetries=1), pb=2, max_exec=5000, keep=keepr)
-    # ... and MSQueue (pointer-valued words: kind of access, CAS outcome, null / non-null)
+        sb.append(lambda: step_bind(ctx, 'Ramalhete', 'queue_ram', ['ram21/nebr0/P;;push1,push2,pop;pop,push3'], dict(rq, EPN=2, PopRetries=1), pb=2, max_exec=5000, keep=keepr))
+    # MSQueue: pointer-valued words (kind of access, CAS outcome, null / non-null)
     keepm = lambda r: r.get('fn', '').startswith('michael_scott_queue::') and 'node::' not in r.get('fn', '')
     for rc in (['nebr0'] if q else ['nebr0', 'hp3', 'stamp']):
-        step_bind(ctx, 'MSQueue', 'queue_ms', ['ms/%s/I;;push1,push2,pop;pop,push3' % rc], queue_models.ms_consts(NNodes=7, MaxPush=2, MaxPop=2), pb=2, max_exec=15 if q else 1500, keep=keepm)
+        sb.append(lambda rc=rc: step_bind(ctx, 'MSQueue', 'queue_ms', ['ms/%s/I;;push1,push2,pop;pop,push3' % rc], queue_models.ms_consts(NNodes=7, MaxPush=2, MaxPop=2), pb=2,
+                                          max_exec=15 if q else 1500, keep=keepm))
+    run_parallel(sb, maxw=4)
     for r in ctx.tv[:3]:
         ctx.samples.append({'driver': r['driver'], 'history': canonical_sample(execution_lines(r['trace'], 2), 60)})
     return finish(ctx,
